@@ -120,14 +120,14 @@ def _classes():
             r = super().replace_node(current_node, new_node, current_statement)
             st = current_statement if current_statement is not None else self.current_statement
             if r is not None and self._stmts is not None and st is not None:
-                self._stmts[id(r)] = ("replace", st, r)
+                self._stmts[id(r)] = ("replace", st, r, current_node, new_node)
             return r
 
         def remove_node(self, current_node, current_statement=None):
             r = super().remove_node(current_node, current_statement)
             st = current_statement if current_statement is not None else self.current_statement
             if r is not None and self._stmts is not None and st is not None:
-                self._stmts[id(r)] = ("remove", st, r)
+                self._stmts[id(r)] = ("remove", st, r, None, None)
             return r
 
     _CLS = (NameCheckVisitor, Rec)
@@ -141,6 +141,8 @@ def get_kwargs(profile):
             st = pya.default_settings()
         elif profile == "fix":
             st = pya.default_settings(extra_on=FIX_CODES)
+        elif profile == "nodefix":
+            st = pya.default_settings(extra_on=("use_fstrings", "missing_f", "too_many_positional_args"))
         elif profile == "default":
             st = NCV._get_default_settings()
         else:
@@ -176,9 +178,13 @@ def real_round(ctx, src, add_ignores, profile):
     out = [(list(c.linenos_to_delete), None if c.lines_to_add is None else list(c.lines_to_add)) for c in chs]
     info = None
     if chs and id(chs[0]) in v._stmts:
-        kind, st, _ = v._stmts[id(chs[0])]
+        kind, st, _, cur_node, new_node = v._stmts[id(chs[0])]
         info = {"kind": kind, "type": type(st).__name__, "lineno": st.lineno, "col": st.col_offset,
                 "end_lineno": st.end_lineno, "end_col": st.end_col_offset}
+        if cur_node is not None and hasattr(cur_node, "lineno"):
+            info["target"] = (type(cur_node).__name__, cur_node.lineno, cur_node.col_offset,
+                              getattr(cur_node, "end_lineno", None), getattr(cur_node, "end_col_offset", None))
+            info["new_node"] = new_node
     # the real file route: readlines -> _apply_changes_to_lines -> write
     path = os.path.join(ctx.scratch, "c16_apply.py")
     with open(path, "w", newline="") as f:
@@ -329,7 +335,8 @@ def stmt_facts(src, tree, st):
         if isinstance(n, ast.BinOp) and isinstance(n.op, ast.Mod) and isinstance(n.left, ast.Constant) and isinstance(n.left.value, str):
             if "%d" in n.left.value or not isinstance(n.right, ast.Tuple):
                 risky = True
-    return shares, sole, is_elif, risky
+    decorated = bool(getattr(st, "decorator_list", None))
+    return shares, sole, is_elif, risky, decorated
 
 
 def dump_without(tree, st, placeholder):
@@ -502,7 +509,7 @@ def gen_ignore_programs(ctx):
     for i, j in pairs[:ctx.n(12, 200)]:
         progs.append(("pair", build_program([], [[T_SAFE[i][1], T_SAFE[j][1]]], []), True))
     # 4. seeded random larger programs
-    for _ in range(ctx.n(45, 1000)):
+    for _ in range(ctx.n(36, 1000)):
         r = rng.random()
         pool = T_SAFE + T_NEUTRAL
         special = None
@@ -614,7 +621,7 @@ def gen_fix_programs(ctx):
     # first line / last line of the file
     progs.append(("first-line", ["x0 = \"%s\" % __name__"] + build_fix_program([F_OK[0][1]])))
     progs.append(("last-line", build_fix_program([F_OK[8][1]], tail=["def t9(a, b, c): return \"%s\" % a"])))
-    for _ in range(ctx.n(25, 600)):
+    for _ in range(ctx.n(18, 600)):
         r = rng.random()
         pool = F_OK if r < 0.7 else allf
         progs.append(("random", build_fix_program([rng.choice(pool)[1] for _ in range(rng.randint(2, 4))])))
@@ -785,14 +792,469 @@ def ignores_cases(ctx, items, with_model, limit=150):
             ctx.candidate(case, what, cls=cls, conforms=conforms, stream="ignores")
 
 
+# ------------------------------------------------------------------ generic trees: ast <-> driver tokens (stream nodecopy)
+import hashlib as _hashlib
+
+
+def _leaf_tok(v):
+    return "None" if v is None else "h" + _hashlib.sha1(repr(v).encode()).hexdigest()[:10]
+
+
+def enc_ast(node, ids=None, with_ids=True):
+    """Tokens of an ast node for the driver's `T` op. ids: dict id(obj) -> number (identity, as `node == target` in
+    ReplaceNodeTransformer is identity; the shared ctx singletons get one number)."""
+    if ids is None:
+        ids = {}
+    out = []
+
+    def go(n):
+        k = ids.setdefault(id(n), len(ids) + 1) if with_ids else 0
+        fields = [(f, getattr(n, f, None)) for f, _ in ast.iter_fields(n)]
+        out.extend(["n", type(n).__name__, str(k), str(len(fields))])
+        for f, v in fields:
+            out.append(f)
+            if isinstance(v, list):
+                out.extend(["m", str(len(v))])
+                for it in v:
+                    if it is None:
+                        out.append("x")
+                    elif isinstance(it, ast.AST):
+                        out.append("t")
+                        go(it)
+                    else:
+                        out.extend(["v", _leaf_tok(it)])
+            elif isinstance(v, ast.AST):
+                out.append("c")
+                go(v)
+            else:
+                out.extend(["l", _leaf_tok(v)])
+
+    go(node)
+    return out, ids
+
+
+def enc_result(r):
+    if r is None:
+        return "None"
+    if isinstance(r, list):
+        toks = ["M", str(len(r))]
+        for t in r:
+            toks += enc_ast(t, with_ids=False)[0]
+        return ",".join(toks)
+    return ",".join(enc_ast(r, with_ids=False)[0])
+
+
+def subst_ast(node, target, repl):
+    """Independent oracle: a copy of the tree with the node that *is* `target` replaced by `repl`."""
+    if node is target:
+        return repl
+    kw = {}
+    for f, _ in ast.iter_fields(node):
+        v = getattr(node, f, None)
+        if isinstance(v, list):
+            kw[f] = [subst_ast(x, target, repl) if isinstance(x, ast.AST) else x for x in v]
+        elif isinstance(v, ast.AST):
+            kw[f] = subst_ast(v, target, repl)
+        else:
+            kw[f] = v
+    return type(node)(**kw)
+
+
+def run_nodecopy(ctx, sources, with_model):
+    """The real NodeTransformer (plain copy, one-node replacer, and visitors returning None / a list for one node) on
+    the ASTs of generated programs == Lean `visit`; the plain copy and the replacer also against the oracle."""
+    from pyanalyze.node_visitor import NodeTransformer, ReplaceNodeTransformer
+    rng = ctx.rng
+
+    class Hook(NodeTransformer):
+        def __init__(self, target, result):
+            self.target, self.result = target, result
+            super().__init__()
+
+        def generic_visit(self, node):
+            if node is self.target:
+                return self.result
+            return super().generic_visit(node)
+
+    items = []
+    for src in sources:
+        tree = try_parse(src)
+        if tree is None:
+            continue
+        # function by function: keeps the driver lines short
+        units = [n for n in ast.walk(tree) if isinstance(n, (ast.FunctionDef, ast.ClassDef)) and n.col_offset == 0] or [tree]
+        for unit in units:
+            nodes = [n for n in ast.walk(unit) if n is not unit and not isinstance(n, (ast.expr_context, ast.operator, ast.unaryop,
+                                                                                        ast.boolop, ast.cmpop))]
+            toks, ids = enc_ast(unit)
+            tl = " ".join(toks)
+            items.append(("id", unit, "T|-|" + tl, NodeTransformer().visit(unit), unit))
+            if not nodes:
+                continue
+            for kind in ("r", "r", "d", "s"):
+                target = rng.choice(nodes)
+                r1 = ast.Name(id="R1", ctx=ast.Load())
+                r2 = ast.Name(id="R2", ctx=ast.Load())
+                if kind == "r":
+                    real = ReplaceNodeTransformer(target, r1).visit(unit)
+                    line = "T|r %d|%s|%s" % (ids[id(target)], tl, " ".join(enc_ast(r1)[0]))
+                    exp = subst_ast(unit, target, r1)
+                elif kind == "d":
+                    real = Hook(target, None).visit(unit)
+                    line = "T|d %d|%s" % (ids[id(target)], tl)
+                    exp = None
+                else:
+                    real = Hook(target, [r1, r2]).visit(unit)
+                    line = "T|s %d|%s|%s|%s" % (ids[id(target)], tl, " ".join(enc_ast(r1)[0]), " ".join(enc_ast(r2)[0]))
+                    exp = None
+                items.append((kind, unit, line, real, exp))
+    cap = ctx.n(450, 12000)
+    if len(items) > cap:
+        rng.shuffle(items)
+        items = items[:cap]
+    outs = [None] * len(items)
+    if with_model and items:
+        outs = [parse_kv_simple(o) for o in lean.run_driver("C16", [it[2] for it in items])]
+    for (kind, unit, line, real, exp), mo in zip(items, outs):
+        ctx.count(1, nodecopy=1, **{"nodecopy_" + kind: 1})
+        got = enc_result(real)
+        case = {"nodecopy": kind, "unit": ast.unparse(unit)[:400], "hook": line.split("|")[1]}
+        if exp is not None:
+            # spec side: identity / exact replacement, against the independent oracle
+            ctx.corr("nodecopy-oracle")
+            if got != enc_result(exp):
+                ctx.disagree("nodecopy-oracle", case, "NodeTransformer result differs from the tree with exactly that node replaced",
+                             "oracle: " + ast.dump(exp)[:300])
+        if mo is not None:
+            ctx.corr("nodecopy")
+            if mo.get("out") != got:
+                ctx.disagree("nodecopy", case, got[:300], str(mo.get("out"))[:300])
+            if exp is not None and mo.get("spec") not in (None, "na") and mo.get("spec") != mo.get("out"):
+                ctx.disagree("model-vs-spec", case, "visit " + str(mo.get("out"))[:200], "substTree " + str(mo.get("spec"))[:200])
+
+
+def parse_kv_simple(s):
+    return dict(x.split("=", 1) for x in s.split(" ") if "=" in x) if not s.startswith("bad") else {"raw": s}
+
+
+# ------------------------------------------------------------------ node-level fixes in every expression / statement context
+CTX_PRELUDE = FIX_PRELUDE + [
+    "G0 = 0",
+    "def coll(*args, **kw):", "    return (args, sorted(kw.items()))",
+    "def deco(x):", "    return lambda fn: fn",
+    "class Box:",
+    "    def __init__(self, v=None, **kw):", "        self.v = v", "        self.kw = kw",
+    "    def __enter__(self):", "        return self",
+    "    def __exit__(self, *exc):", "        return False",
+]
+FIXABLE = [
+    ("fstr", "\"%s!\" % b"),                                  # use_fstrings: BinOp -> JoinedStr
+    ("tmpa", "big(a, b, c, 4, 5, 6, 7, 8, 9, 10, 11)"),        # too_many_positional_args: Call -> Call with keywords
+    ("comp", "[1 for x in range(2)]"),                        # unused comprehension variable -> _
+]
+# expressions with one hole; any value (str / tuple / list) may fill it
+CTX_EXPR = [
+    ("dict-star-first", "{{**{{\"p\": a}}, \"k\": {E}, \"z\": 1}}"),
+    ("dict-star-mid", "{{\"k\": {E}, **{{\"p\": a}}, \"z\": 1, **{{}}}}"),
+    ("dict-plain", "{{\"k\": {E}, a: b}}"),
+    ("call-star-kw", "coll(a, *[b, c], k={E}, **{{\"z\": 1}})"),
+    ("call-star-arg", "coll(*[a, {E}], *(), k=1)"),
+    ("call-plain", "coll({E})"),
+    ("list-starred", "[a, *[b, {E}], *(c,)]"),
+    ("tuple-starred", "(a, *[{E}])"),
+    ("set-starred", "sorted({{a, *[len({E})]}})"),
+    ("slice-lower", "[a, b, c, {E}][1:]"),
+    ("slice-upper", "[{E}, a, b, c][:2]"),
+    ("slice-step", "[{E}, a, b][::2]"),
+    ("slice-all", "[a, {E}][0:2:1]"),
+    ("slice-in-index", "\"abcdef\"[len({E}) % 3:]"),
+    ("subscript", "[{E}][0]"),
+    ("lambda-full", "(lambda p, q=1, *r, k, m=2, **kw: (p, q, r, k, m, sorted(kw), {E}))(a, k=b)"),
+    ("lambda-empty", "(lambda: {E})()"),
+    ("lambda-kwonly", "(lambda *, k, m={E}: (k, m))(k=a)"),
+    ("lambda-posonly", "(lambda p, /, q=2: (p, q, {E}))(a)"),
+    ("listcomp-multi", "[({E}, i, j) for i in range(2) if i >= 0 if a is not None for j in range(2) if j != i]"),
+    ("setcomp", "sorted({{len({E}) + i for i in range(3) if i}})"),
+    ("dictcomp", "{{i: {E} for i in range(2)}}"),
+    ("genexp", "list(({E}, i) for i in range(2))"),
+    ("fstring-spec", "f'{{len({E})!r:>5}}|{{a:{{c}}d}}|{{b!s}}|{{a}}'"),
+    ("compare-chain", "(a < c + 100 <= len({E}) + 100 != -1)"),
+    ("compare-in", "(len({E}) in (1, 2) or a not in [c] or a is not None)"),
+    ("boolop-and", "(a and b and {E})"),
+    ("boolop-or", "(0 or {E} or a)"),
+    ("ifexp-body", "({E} if a else b)"),
+    ("ifexp-else", "(b if a else {E})"),
+    ("walrus", "[(y := {E}), y][1]"),
+    ("unary", "(not {E}, -a, +a, ~a)"),
+    ("binop", "[{E}] * 2 + [a]"),
+    ("attribute", "Box({E}).v"),
+    ("keyword-only-call", "Box(v=a, k={E}).kw"),
+    ("nested-call", "coll(coll(a, k=coll({E})), *[coll()])"),
+    ("starred-call-nested", "coll(*coll({E})[0], **dict(coll(z=1)[1]))"),
+    ("const-kinds", "(1, 1.5, 2j, \"s\", u\"u\", b\"b\", None, True, ..., {E})[-1]"),
+]
+# statement lists with one hole (body of `def t0(a, b, c):`, relative indentation); must return something
+CTX_STMT = [
+    ("annassign", ["x: list = [{E}]", "return x"]),
+    ("annassign-novalue", ["x: list", "x = [{E}]", "return x"]),
+    ("multi-target", ["x = y = {E}", "return (x, y)"]),
+    ("starred-target", ["p, *q = [{E}, a, b]", "return (p, q)"]),
+    ("tuple-target", ["(p, q), r = ({E}, a), b", "return (p, q, r)"]),
+    ("subscript-target", ["x = [0, 0]", "x[0] = {E}", "return x"]),
+    ("slice-target", ["x = [0, 0, 0]", "x[1:] = [{E}]", "return x"]),
+    ("augassign", ["x = [a]", "x += [{E}]", "return x"]),
+    ("assert-msg", ["assert a is not None, {E}", "return a"]),
+    ("assert-plain", ["assert len({E}) >= 0", "return a"]),
+    ("raise-from", ["try:", "    raise ValueError({E}) from None", "except ValueError as e:", "    return e.args"]),
+    ("raise-cause", ["try:", "    raise ValueError(a) from KeyError({E})", "except ValueError as e:", "    return e.__cause__.args"]),
+    ("expr-stmt", ["r = []", "r.append({E})", "return r"]),
+    ("delete", ["x = [{E}, a]", "del x[0], x[0:0]", "return x"]),
+    ("return-tuple", ["return a, {E}"]),
+]
+# compound statements with the hole in the header (the whole statement, body included, is regenerated)
+BODY_ALL = [
+    "global G0",
+    "r = [G0]",
+    "def gen(n, /, p=0, *rest, k, m=1, **kw):",
+    "    if n:",
+    "        return",
+    "    yield",
+    "    yield n",
+    "    yield from [k, m, p, rest, sorted(kw)]",
+    "async def co(p, *, k=None) -> int:",
+    "    async with p as q, k:",
+    "        pass",
+    "    async for i in p:",
+    "        await i",
+    "    else:",
+    "        pass",
+    "    return await p",
+    "@deco(1)",
+    "@deco(2)",
+    "def ann(p: int, q: 'str' = '', *r: int, k: int, m: int = 2, **kw: int) -> int:",
+    "    return p",
+    "class K(Box, object, metaclass=type):",
+    "    x: int = 1",
+    "    y: int",
+    "try:",
+    "    r.append(int(\"x\"))",
+    "except (KeyError, IndexError):",
+    "    r.append(1)",
+    "except ValueError as e:",
+    "    r.append(str(e)[:3])",
+    "except:",
+    "    r.append(3)",
+    "else:",
+    "    r.append(4)",
+    "finally:",
+    "    r.append(5)",
+    "try:",
+    "    pass",
+    "finally:",
+    "    r.append(6)",
+    "with Box(1) as b1, Box(2):",
+    "    r.append(b1.v)",
+    "with Box(3):",
+    "    pass",
+    "for i in range(2):",
+    "    if i:",
+    "        continue",
+    "    elif a:",
+    "        pass",
+    "    r.append(i)",
+    "else:",
+    "    r.append(\"fe\")",
+    "while False:",
+    "    break",
+    "else:",
+    "    r.append(\"we\")",
+    "z: int = 1",
+    "del z",
+    "import os.path as osp, sys",
+    "from os import sep as s1, getcwd",
+    "assert r, \"msg\"",
+    "assert r",
+    "try:",
+    "    raise ValueError(\"v\") from None",
+    "except ValueError:",
+    "    pass",
+    "try:",
+    "    raise",
+    "except RuntimeError:",
+    "    pass",
+    "r.append(list(gen(0, k=2)))",
+    "r.append(K.x + ann(1, k=2))",
+    "r.append((osp.sep == s1, sys is not None, getcwd is not None, co is not None))",
+    "def outer2():",
+    "    zz = 1",
+    "    def in2():",
+    "        nonlocal zz",
+    "        zz += 1",
+    "        return zz",
+    "    return in2()",
+    "r.append(outer2())",
+    "r.append({**{\"p\": 1}, \"q\": [*r[:1]][0]})",
+]
+BODY_MATCH = [
+    "match Box(r).v:",
+    "    case [first, *rest] if rest:",
+    "        r.append(first)",
+    "    case {\"a\": 1, **kw}:",
+    "        pass",
+    "    case Box(v=1) | None:",
+    "        pass",
+    "    case (1 | 2) as num:",
+    "        pass",
+    "    case [1, 2, *_]:",
+    "        pass",
+    "    case {}:",
+    "        pass",
+    "    case _:",
+    "        pass",
+]
+CTX_HEADER = [
+    ("if", ["if len({E}) >= 0:", "BODY", "else:", "    r = []", "return r"]),
+    ("if-elif", ["r = [0]", "if not a and c:", "    r = [1]", "elif len({E}) >= 0:", "BODY", "return r"]),
+    ("while", ["r = []", "while len({E}) >= 0:", "BODY", "    break", "else:", "    r = [1]", "return r"]),
+    ("for", ["r = []", "for it in [{E}]:", "BODY", "else:", "    r.append(\"done\")", "return r"]),
+    ("with", ["with Box({E}) as bx, Box(a):", "BODY", "return (r, bx.v)"]),
+    ("with-noas", ["r = []", "with Box({E}):", "BODY", "return r"]),
+    ("try-handler-type", ["r = []", "try:", "    r.append(int(\"x\"))", "except (KeyError, type({E})):", "    r.append(1)",
+                          "except ValueError as e:", "    r.append(2)", "except:", "    r.append(3)", "else:", "    r.append(4)",
+                          "finally:", "    r.append(5)", "return r"]),
+    ("decorator", ["@deco({E})", "@deco(0)", "def inner(p, /, q: int = 1, *r: int, k, m: int = 2, **kw: int) -> tuple:",
+                   "    return (p, q, r, k, m, sorted(kw))", "return inner(a, k=b)"]),
+    ("default-arg", ["def inner(p, q=1, *, k, m={E}, n=3):", "    return (p, q, k, m, n)", "return inner(a, k=b)"]),
+    ("default-posonly", ["def inner(p, /, q={E}, *r, k, **kw):", "    return (p, q, r, k, sorted(kw))", "return inner(a, k=b, z=1)"]),
+    ("class-base", ["class K2(Box if len({E}) >= 0 else object, metaclass=type):", "    x: int = 1", "    def m(self, *, k, j=1):",
+                    "        return (k, j)", "return (K2.x, K2().m(k=a))"]),
+    ("match-subject", ["r = [a, b]", "match Box([len({E}), a]).v:", "    case [n, *rest] if n >= 0:", "        r.append(rest)",
+                       "    case {\"a\": 1, **kw}:", "        pass", "    case Box(v=1) | None:", "        pass",
+                       "    case (1 | 2) as num:", "        pass", "    case _:", "        pass", "return r"]),
+    ("if-with-match-body", ["if len({E}) >= 0:", "    r = [a, b]", "MATCH", "else:", "    r = []", "return r"]),
+]
+
+
+def build_ctx_program(stmt_lines):
+    lines = list(CTX_PRELUDE) + ["def t0(a, b, c):"]
+    for l in stmt_lines:
+        if l == "BODY":
+            lines += ["        " + x for x in BODY_ALL]
+        elif l == "MATCH":
+            lines += ["        " + x for x in BODY_MATCH]
+        else:
+            lines.append("    " + l)
+    return lines
+
+
+def ctx_programs(ctx):
+    """(tag, lines, profile). Quick: every context with one fixable node (rotating with the seed), the `**` contexts with
+    all; thorough: every context x every fixable node, plus random two-level nestings of expression contexts."""
+    rng = ctx.rng
+    progs = []
+    nfx = len(FIXABLE)
+    for i, (name, e) in enumerate(CTX_EXPR):
+        for j, (fname, fx) in enumerate(FIXABLE):
+            if ctx.big() or j == (i + ctx.seed) % nfx or name == "dict-star-first":
+                progs.append(("expr:%s:%s" % (name, fname), build_ctx_program(["return " + e.format(E=fx)]), "fix"))
+    for i, (name, body) in enumerate(CTX_STMT + CTX_HEADER):
+        for j, (fname, fx) in enumerate(FIXABLE[:2]):
+            if ctx.big() or j == (i + ctx.seed) % 2:
+                progs.append(("stmt:%s:%s" % (name, fname), build_ctx_program([l.format(E=fx) if "{E}" in l else l for l in body]), "nodefix"))
+    for _ in range(ctx.n(3, 250)):
+        (n1, e1), (n2, e2) = rng.choice(CTX_EXPR), rng.choice(CTX_EXPR)
+        fname, fx = rng.choice(FIXABLE)
+        inner = e2.format(E=fx)
+        progs.append(("nest:%s:%s:%s" % (n1, n2, fname), build_ctx_program(["return " + e1.format(E=inner)]), "fix"))
+    return progs
+
+
+def ast_field_catalogue():
+    """Every (node class, field) whose grammar declaration is a list (`*`) or optional (`?`), read off ast's own
+    docstrings (`Dict(expr* keys, expr* values)`)."""
+    import re
+    cat = {}
+    todo = [ast.AST]
+    seen = set()
+    while todo:
+        c = todo.pop()
+        for sub in c.__subclasses__():
+            if sub in seen:
+                continue
+            seen.add(sub)
+            todo.append(sub)
+            doc = sub.__doc__ or ""
+            m = re.match(r"\s*%s\((.*)\)\s*$" % re.escape(sub.__name__), doc.strip().replace("\n", " "))
+            if m:
+                for part in m.group(1).split(","):
+                    mm = re.match(r"\s*(\w+)([*?]?)\s+(\w+)\s*$", part)
+                    if mm and mm.group(2):
+                        cat[(sub.__name__, mm.group(3))] = mm.group(2)
+    return cat
+
+
+def context_coverage(ctx, programs):
+    """Which list / optional fields of the grammar the generated contexts exercise, and in which shapes."""
+    cat = ast_field_catalogue()
+    seen = {}
+    for lines in programs:
+        tree = try_parse("\n".join(lines) + "\n")
+        if tree is None:
+            continue
+        for n in ast.walk(tree):
+            for f, v in ast.iter_fields(n):
+                key = (type(n).__name__, f)
+                if key not in cat:
+                    continue
+                s = seen.setdefault(key, set())
+                if cat[key] == "?":
+                    s.add("absent" if v is None else "present")
+                else:
+                    s.add("empty" if not v else ("one" if len(v) == 1 else "many"))
+                    if any(x is None for x in v):
+                        s.add("with-None-entry")
+    unseen = sorted("%s.%s" % k for k in cat if k not in seen)
+    oneshape = sorted("%s.%s:%s" % (k[0], k[1], "/".join(sorted(v))) for k, v in seen.items()
+                      if (cat[k] == "?" and len(v) < 2))
+    ctx.extra["ast_context_coverage"] = {
+        "list_or_optional_fields_in_grammar": len(cat), "exercised": len(seen), "not_exercised": unseen,
+        "optional_fields_seen_in_one_shape_only": oneshape,
+        "fields_with_None_entries": sorted("%s.%s" % k for k, v in seen.items() if "with-None-entry" in v)}
+
+
 # ------------------------------------------------------------------ fixes stream
-def fix_case(ctx, case, lines, with_model, cap):
+def normalise_new_node(new_node, target):
+    """The replacement the fix producer built, as CPython itself reads it back (ast.unparse -> ast.parse), with the
+    expression context of the node it replaces."""
+    try:
+        n = ast.parse(ast.unparse(new_node), mode="eval").body
+    except Exception:
+        n = copy.deepcopy(new_node)
+    if hasattr(target, "ctx") and hasattr(n, "ctx"):
+        n.ctx = type(target.ctx)()
+    return n
+
+
+def exact_replacement_dump(old_tree, info):
+    """ast.dump of the original tree with exactly the intended node replaced (None if the node cannot be located)."""
+    tt = info.get("target")
+    if not tt or info.get("new_node") is None:
+        return None
+    cands = [n for n in ast.walk(old_tree) if type(n).__name__ == tt[0] and getattr(n, "lineno", None) == tt[1]
+             and getattr(n, "col_offset", None) == tt[2] and getattr(n, "end_lineno", None) == tt[3]
+             and getattr(n, "end_col_offset", None) == tt[4]]
+    if len(cands) != 1:
+        return None
+    return ast.dump(subst_ast(old_tree, cands[0], normalise_new_node(info["new_node"], cands[0])))
+
+
+def fix_case(ctx, case, lines, with_model, cap, profile="fix"):
     src = "\n".join(lines) + "\n"
     cur = src
     pending = []   # driver lines + comparison closures
     for k in range(cap):
         try:
-            fails, changes, info, new = real_round(ctx, cur, False, "fix")
+            fails, changes, info, new = real_round(ctx, cur, False, profile)
         except Exception as e:
             if k == 0:
                 ctx.tag("generator_rejects")
@@ -815,7 +1277,7 @@ def fix_case(ctx, case, lines, with_model, cap):
         old_tree = ast.parse(cur)
         new_tree = try_parse(new)
         st = find_stmt(old_tree, info) if info else None
-        facts = stmt_facts(cur, old_tree, st) if st is not None else (False, False, False, False)
+        facts = stmt_facts(cur, old_tree, st) if st is not None else (False, False, False, False, False)
         if info is None or st is None:
             ctx.tag("fix_without_statement_record")
         if new_tree is None:
@@ -827,14 +1289,23 @@ def fix_case(ctx, case, lines, with_model, cap):
                     problems.append(("locality", "round %d: removing the statement on line %d for %s changed more than that statement" % (k, st.lineno, code)))
             else:
                 off = len(first[1]) - len(first[0])
-                cand = [n for n in ast.walk(new_tree) if isinstance(n, ast.stmt) and type(n) is type(st) and n.lineno == st.lineno
-                        and n.col_offset == st.col_offset]
+                cand = [n for n in ast.walk(new_tree) if isinstance(n, ast.stmt) and type(n) is type(st)
+                        and st.lineno <= n.lineno <= st.lineno + len(first[1]) and n.col_offset == st.col_offset]
                 ok = False
                 for n in cand:
                     if dump_without(new_tree, n, True) == dump_without(old_tree, st, True):
                         ok = True
                 if not ok:
                     problems.append(("locality", "round %d: rewriting the statement on line %d for %s changed the tree outside that statement" % (k, st.lineno, code)))
+                # exactness: the fixed file is the original tree with exactly the intended node replaced
+                want = exact_replacement_dump(old_tree, info)
+                if want is None:
+                    ctx.tag("fix_target_not_located")
+                else:
+                    ctx.count(1, exact_oracle=1)
+                    if ast.dump(new_tree) != want:
+                        problems.append(("exact", "round %d: the file after the fix for %s is not the original syntax tree with exactly the node at line %d col %d replaced" % (
+                            k, code, info["target"][1], info["target"][2])))
             # behaviour
             b0, b1 = behaviour(cur), behaviour(new)
             if code == "missing_f":
@@ -852,7 +1323,7 @@ def fix_case(ctx, case, lines, with_model, cap):
         if new_tree is not None:
             # the proposing diagnostic is gone
             try:
-                nf = real_round(ctx, new, False, "fix")[0]
+                nf = real_round(ctx, new, False, profile)[0]
             except Exception:
                 nf = None
                 problems.append(("behaviour", "round %d: after the fix for %s the module no longer imports" % (k, code)))
@@ -863,9 +1334,9 @@ def fix_case(ctx, case, lines, with_model, cap):
                 if c_new > c_old - 1:
                     problems.append(("still", "round %d: the diagnostic that proposed the fix (%s: %s) is still reported" % (k, key[0], key[1])))
         if info is not None:
-            pending.append(("X", case, k, "X|%s|%d|%d|%s|%d%d%d%d" % (
+            pending.append(("X", case, k, "X|%s|%d|%d|%s|%d%d%d%d%d" % (
                 enc_lines(cl), info["lineno"], info["end_lineno"], enc_adds(None if first[1] is None else strip_nl(first[1])),
-                int(facts[0]), int(facts[1]), int(facts[2]), int(facts[3] and code == "use_fstrings")), problems, first[0]))
+                int(facts[0]), int(facts[1]), int(facts[2]), int(facts[3] and code == "use_fstrings"), int(facts[4])), problems, first[0]))
             pending.append(("R", case, k, "R|%s|%d|%d|%d" % (enc_lines(cl), info["lineno"], info["end_lineno"], info["end_lineno"]),
                             first[0], None))
         elif problems:
@@ -878,9 +1349,10 @@ def fix_case(ctx, case, lines, with_model, cap):
 
 FIX_KIND_CLASSES = {
     "parse": ["emptyBlock", "stmtRangeOverrun", "sharedLine"],
-    "locality": ["stmtRangeOverrun", "sharedLine", "elifHeader", "emptyBlock"],
-    "behaviour": ["stmtRangeOverrun", "sharedLine", "elifHeader", "fstringConversion"],
-    "still": [],
+    "locality": ["stmtRangeOverrun", "sharedLine", "elifHeader", "emptyBlock", "decoratedStmt"],
+    "behaviour": ["stmtRangeOverrun", "sharedLine", "elifHeader", "decoratedStmt", "fstringConversion"],
+    "still": ["decoratedStmt"],
+    "exact": ["stmtRangeOverrun", "sharedLine", "elifHeader", "decoratedStmt"],
 }
 
 
@@ -924,7 +1396,11 @@ def flush_fixes(ctx, pending, with_model):
                 if kind in seen:
                     continue
                 seen.add(kind)
-                cls = next((c for c in FIX_KIND_CLASSES[kind] if c in cls_list), None)
+                allowed = FIX_KIND_CLASSES[kind]
+                if kind == "behaviour" and any(k2 in ("exact", "locality", "parse") for k2, _w in p[4]):
+                    # fstringConversion explains a changed result only when the tree is exactly the intended one
+                    allowed = [c for c in allowed if c != "fstringConversion"]
+                cls = next((c for c in allowed if c in cls_list), None)
                 ctx.candidate(dict(case, round=k), what, cls=cls, conforms=conform.get(key, True), stream="fixes")
         elif op == "X" and mo is not None:
             for c in classes_of(mo):
@@ -1103,7 +1579,8 @@ def run_corpus_item(ctx, item, with_model):
         ignores_cases(ctx, [{"case": {"program": item["program"], "final_newline": item.get("final_newline", True)},
                              "src": src, "cap": item.get("cap", ROUND_CAP_QUICK)}], with_model)
     elif "program" in item and item.get("mode") == "fixes":
-        flush_fixes(ctx, fix_case(ctx, {"program": item["program"], "mode": "fixes"}, item["program"], with_model, 8), with_model)
+        flush_fixes(ctx, fix_case(ctx, {"program": item["program"], "mode": "fixes", "profile": item.get("profile", "fix")},
+                                  item["program"], with_model, 8, profile=item.get("profile", "fix")), with_model)
     elif "program" in item and item.get("mode") == "cli":
         run_cli(ctx, item["program"], with_model, 900 + len(item["program"]))
 
@@ -1131,6 +1608,25 @@ def _run(ctx, with_model):
             flush_fixes(ctx, pending, with_model)
             pending = []
     flush_fixes(ctx, pending, with_model)
+    # ---- node-level fixes in every expression / statement context
+    cprogs = ctx_programs(ctx)
+    pending = []
+    for tag, lines, prof in cprogs:
+        ctx.tag("gen_ctx_" + tag.split(":")[0])
+        before = len(pending)
+        pending += fix_case(ctx, {"program": lines, "mode": "fixes", "profile": prof}, lines, with_model, ctx.n(1, 4), profile=prof)
+        if not any(p[0] == "X" for p in pending[before:]):
+            ctx.tag("ctx_without_applied_node_fix")
+            ctx.notes.append("context without an applied fix: " + tag)
+        if len(pending) > 150:
+            flush_fixes(ctx, pending, with_model)
+            pending = []
+    flush_fixes(ctx, pending, with_model)
+    context_coverage(ctx, [l for _t, l, _p in cprogs])
+    srcs = ["\n".join(l) + "\n" for _t, l, _p in cprogs]
+    extra = ["\n".join(l) + "\n" for _t, l in fprogs] + ["\n".join(l) + "\n" for _t, l, _n in progs]
+    ctx.rng.shuffle(extra)
+    run_nodecopy(ctx, srcs + extra[:ctx.n(40, 600)], with_model)
     # ---- unit streams
     run_apply(ctx, with_model)
     run_range(ctx, [l for _t, l, _n in progs] + [l for _t, l in fprogs], with_model)
@@ -1162,7 +1658,7 @@ def replay(ctx, data):
     if "cli" in case:
         run_cli(ctx, case["program"], True, 999)
     elif case.get("mode") == "fixes":
-        flush_fixes(ctx, fix_case(ctx, {"program": case["program"], "mode": "fixes"}, case["program"], True, 12), True)
+        flush_fixes(ctx, fix_case(ctx, dict(case), case["program"], True, 12, profile=case.get("profile", "fix")), True)
     elif "program" in case and isinstance(case["program"], list):
         src = "\n".join(case["program"]) + ("\n" if case.get("final_newline", True) else "")
         ignores_cases(ctx, [{"case": case, "src": src, "cap": ROUND_CAP}], True)
